@@ -1078,9 +1078,10 @@ example : ¬ sciRealAst.Accepts "1e5.5".toList := by decide
 
 /-! ## ipv4_address — soundness half only (`_partial`)
 
-Full statement (NOT proved): `ipv4Ast.Accepts s ↔ IsIpv4 s`.  Proved here: `→` (everything the pattern accepts is
-four octets of the pattern's exact policy separated by dots).  Missing: `←`, i.e. that for every such string the
-*preferred* match is the full one (needs the greedy-first argument through the backtracking octet alternatives). -/
+Full statement: `ipv4Ast.Accepts s ↔ IsIpv4 s` — proved as `ipv4_language` in `Props/C18More.lean`.  Proved here: `→`
+(`ipv4_language_partial`: everything the pattern accepts is four octets of the pattern's exact policy separated by
+dots).  The direction `←` (for every such string the *preferred* match is the full one: the greedy-first argument
+through the backtracking octet alternatives) is `ipv4_complete` in `Props/C18More.lean`. -/
 
 theorem mem_set_ends (cs : CSet) (s e : List Char) :
     e ∈ (Re.set cs).ends s ↔ ∃ c, s = c :: e ∧ cs.has c = true := by
